@@ -40,6 +40,7 @@ func main() { Main(runC13) }
 const waitLong = 10 * time.Second
 
 var stuckConfirmed int
+var stillTracked int
 
 var st = map[string]int{}
 
@@ -1191,9 +1192,14 @@ func (w *world) takeOver(c int) {
 	fc.mu.Lock()
 	sc := fc.asServer
 	fc.mu.Unlock()
-	d := time.Now().Add(waitLong)
+	bound := waitLong
+	if stillTracked >= 2 {
+		bound = 200 * time.Millisecond // confirmed twice with the long bound: do not pay 10 s again
+	}
+	d := time.Now().Add(bound)
 	for w.srv.VerifTracksConn(sc) {
 		if time.Now().After(d) {
+			stillTracked++
 			w.addViol("C13/hijacked-connection-still-tracked", fmt.Sprintf("the handler hijacked connection %d and returned, but the server keeps it in its connection tracking (srv.conns): Shutdown will set its read deadline, and it is never released", c))
 			break
 		}
